@@ -29,13 +29,24 @@ def parseTags (tag : String) : String × TagOpts :=
       else if opt == "prepend" then { o with handling := .prepend }
       else o) {})
 
-/-- util.go fieldName (ASCII field names) -/
-def fieldName (tagName goName : String) : String :=
-  if tagName != "" then tagName else goName.toLower
+/-- upper-case letters outside ASCII the model knows: Latin-1 (À-Þ without ×), Greek (Α-Ω) and Cyrillic (А-Я) capitals.
+unicode.IsUpper / strings.ToLower on anything else is outside the model (the generators stay inside) -/
+def upperNonAscii (c : Char) : Bool :=
+  let n := c.toNat
+  (0xC0 ≤ n && n ≤ 0xDE && n != 0xD7) || (0x391 ≤ n && n ≤ 0x3A9 && n != 0x3A2) || (0x410 ≤ n && n ≤ 0x42F)
 
+/-- strings.ToLower on the letters the model knows (the three blocks above lower-case by adding 0x20) -/
+def goLower (s : String) : String :=
+  String.ofList (s.toList.map (fun c => if upperNonAscii c then Char.ofNat (c.toNat + 0x20) else c.toLower))
+
+/-- util.go fieldName -/
+def fieldName (tagName goName : String) : String :=
+  if tagName != "" then tagName else goLower goName
+
+/-- util.go accessField: unicode.IsUpper on the first rune -/
 def exported (goName : String) : Bool :=
   match goName.toList with
-  | c :: _ => c.isUpper
+  | c :: _ => c.isUpper || upperNonAscii c
   | [] => false
 
 /-- merge.go normalizeString -/
